@@ -49,7 +49,15 @@ def _evaluate(mod, cases, outs, tag):
         else:
             terms.append(mod.emit(c, o))
             idx.append((i, 0))
-    res = fw.eval_cases(mod.ID, mod.RUNNER, mod.CASE_TYPE, terms, tag=tag)
+    try:
+        res = fw.eval_cases(mod.ID, mod.RUNNER, mod.CASE_TYPE, terms, tag=tag)
+    except RuntimeError as e:
+        if "inconsistent assumptions" not in str(e) and "Compiled library" not in str(e):
+            raise
+        # another check rebuilt Generated/Tables.vo in between: rebuild this runner and evaluate again
+        with fw.BuildLock():
+            fw.make(mod.RUNNER_TARGETS)
+        res = fw.eval_cases(mod.ID, mod.RUNNER, mod.CASE_TYPE, terms, tag=tag)
     back = {"sub": {}}
     for k in ("corr", "spec", "wf"):
         back[k] = set()
@@ -83,8 +91,9 @@ def _size(case):
     return len(json.dumps(case, default=str))
 
 
-def _shrink(mod, case, kind, budget_rounds=10):
-    """Greedy batch shrinking: keep a candidate that still fails the same way."""
+def _shrink(mod, case, kind, budget_rounds=10, known_keys=()):
+    """Greedy batch shrinking: keep a candidate that still fails the same way (and is not a listed finding:
+    shrinking must not slide from a new violation into a known one)."""
     if not hasattr(mod, "shrink"):
         return case
     cur = case
@@ -98,6 +107,7 @@ def _shrink(mod, case, kind, budget_rounds=10):
         except Exception:
             break
         bad = sorted(res[kind] - res["wf"], key=lambda i: _size(cands[i]))
+        bad = [i for i in bad if _classify(mod, cands[i], outs[i], kind, res, i) not in known_keys]
         if not bad:
             break
         cur = cands[bad[0]]
@@ -267,7 +277,7 @@ def run(pid: str, tier: str, seed: int, replay: str | None = None) -> int:
         case = cases[i] if i is not None else None
         if case is not None and kind in ("spec", "corr") and ok_run and not replay:
             try:
-                small = _shrink(mod, case, kind)
+                small = _shrink(mod, case, kind, known_keys=set(known_keys))
                 if small is not case:
                     case = small
             except Exception:
